@@ -55,6 +55,7 @@ enum Op {
     RemoveSubtree(usize),
     Clear,
     Cycle(usize, u32), // remove + new_node on the slot of uid, n times (generation counter)
+    Alias,             // from here on removed nodes are named by the id get_node_id reports for their slot
 }
 
 fn op_str(o: &Op) -> String {
@@ -73,6 +74,7 @@ fn op_str(o: &Op) -> String {
         Op::Remove(x) => format!("remove {}", x),
         Op::RemoveSubtree(x) => format!("remove_subtree {}", x),
         Op::Clear => "clear".into(),
+        Op::Alias => "alias".into(),
         Op::Cycle(x, n) => format!("cycle {} {}", x, n),
     }
 }
@@ -99,6 +101,7 @@ fn parse_ops(s: &str) -> Vec<Op> {
             "remove" => Op::Remove(n(1)),
             "remove_subtree" => Op::RemoveSubtree(n(1)),
             "clear" => Op::Clear,
+            "alias" => Op::Alias,
             "cycle" => Op::Cycle(n(1), w[2].parse().unwrap()),
             x if x.starts_with("checked_") => Op::Checked(ins(&x[8..]).unwrap(), n(1), n(2)),
             x => Op::Unchecked(ins(x).unwrap(), n(1), n(2)),
@@ -249,6 +252,7 @@ struct Sut {
     bound: usize,
     handed_out: BTreeMap<usize, u32>,
     mask: BTreeSet<&'static str>, // properties already witnessed in this run: their oracles are skipped
+    alias_mode: bool,            // removed nodes are passed under the id get_node_id reports for them
 }
 
 /// report a violation unless every property it concerns has already been witnessed in this run
@@ -281,7 +285,21 @@ impl Sut {
             bound: 64,
             handed_out: BTreeMap::new(),
             mask: BTreeSet::new(),
+            alias_mode: false,
         }
+    }
+    /// the id passed to an operation for node u.  In alias mode a removed, not yet recycled node is named by the id
+    /// that `get_node_id` reports for its slot (it carries the slot's removed stamp): another valid way to say "that node"
+    fn arg_id(&self, u: usize) -> NodeId {
+        let id = self.ids[u];
+        if self.alias_mode && !self.model.nodes[u].alive && !self.recycled[u] {
+            if let Some(node) = self.arena.as_slice().get(self.pos(id) - 1) {
+                if let Some(alias) = self.arena.get_node_id(node) {
+                    return alias;
+                }
+            }
+        }
+        id
     }
     fn uid_of(&self, id: NodeId) -> Option<usize> {
         // the live uid with this id
@@ -367,7 +385,7 @@ impl Sut {
                 if !self.usable(*p) {
                     return Ok(false);
                 }
-                let pid = self.ids[*p];
+                let pid = self.arg_id(*p);
                 let cb = self.arena.count();
                 let fb = self.free_positions();
                 let tokn = self.ids.len() as u32;
@@ -404,7 +422,7 @@ impl Sut {
                 if !self.usable(*a) || !self.usable(*b) {
                     return Ok(false);
                 }
-                let (ia, ib) = (self.ids[*a], self.ids[*b]);
+                let (ia, ib) = (self.arg_id(*a), self.arg_id(*b));
                 let imp = self.model.impossible(*a, *b);
                 let involves_removed = !self.model.nodes[*a].alive || !self.model.nodes[*b].alive;
                 let snap = self.arena.clone();
@@ -518,6 +536,9 @@ impl Sut {
                 for &u in &gone {
                     self.removed_once[u] = true;
                 }
+            }
+            Op::Alias => {
+                self.alias_mode = true;
             }
             Op::Clear => {
                 self.log.borrow_mut().clear();
@@ -1049,6 +1070,7 @@ fn transcript(ops: &[Op]) -> String {
                         ids[*x].remove_subtree(&mut arena);
                     }
                 }
+                Op::Alias => {}
                 Op::Clear => {
                     arena.clear();
                     ids.clear();
@@ -1254,6 +1276,15 @@ fn main() {
                 nseq += 1;
                 nops += ops.len();
                 record(&ops, o, &mut found);
+                if m <= 3 && ops.iter().any(|o| matches!(o, Op::Remove(_) | Op::RemoveSubtree(_))) {
+                    // the same sequence with removed nodes named by the id `get_node_id` reports for their slot
+                    let mut aops = vec![Op::Alias];
+                    aops.extend(ops.iter().cloned());
+                    let o = run_seq(&aops, &heartbeat, true, &found.keys().cloned().collect());
+                    nseq += 1;
+                    nops += aops.len();
+                    record(&aops, o, &mut found);
+                }
                 let mut k = d;
                 loop {
                     if k == 0 {
@@ -1322,7 +1353,7 @@ fn main() {
         let random_target = nseq + (budget.as_millis() as usize) * 5 / 2;
         while nseq < random_target && t0.elapsed() < hard_cap {
             let len = 6 + r.below(14);
-            let mut ops = vec![Op::New, Op::New];
+            let mut ops = if nseq % 3 == 0 { vec![Op::Alias, Op::New, Op::New] } else { vec![Op::New, Op::New] };
             let mut n = 2;
             // every fourth walk clears the arena somewhere in the middle and goes on with the cleared arena
             let clear_at = if r.below(4) == 0 { 2 + r.below(len.max(3) - 2) } else { usize::MAX };
